@@ -19,6 +19,8 @@ def is_missing(x):
         return False
     if isinstance(x, (float, np.floating)):
         return math.isnan(float(x))
+    if isinstance(x, (complex, np.complexfloating)):
+        return math.isnan(x.real) or math.isnan(x.imag)
     if isinstance(x, (int, np.integer)):
         return False
     if isinstance(x, np.ndarray):
